@@ -365,7 +365,7 @@ def replay(case):
     """the recorded execution on its own; if it does not reproduce (module-level state left behind by earlier
     executions of the same setting), the whole setting is re-explored in a freshly forked process"""
     want = case.get("_core")
-    got = _replay_direct(case)
+    got = par.run_fresh(_replay_direct, case)  # own process: must not pollute the next level
     if got and (want is None or any(c == want for c, _ in got)):
         return got
     if case.get("kind") == "gen":
